@@ -16,8 +16,13 @@ TRUSTED = [
     "hand-written model lean/MorfuseModel/Archive/Model.lean (+ Value.lean) of src/Script/Archiver.cpp, "
     "Archive(Archiver&, str&) and ScriptVariable::ArchiveInternal, tied by the differential run "
     "(harness/archive.cpp on the real Archiver vs `driver archive`): archive bytes and read-back compared exactly",
-    "translator tools/vlib/archgen.py (regexes over Archiver.cpp -> Gen/ArchiveTable.lean: tag enum, constants, "
-    "Archive* call -> tag/width table, the reader switches)",
+    "translator tools/vlib/archgen.py (regexes over Archiver.cpp / StringDictionary.cpp -> Gen/ArchiveTable.lean: tag enum, "
+    "constants, Archive* call -> tag/width table, the reader switches, the two copies of the object size bracket, the "
+    "dictionary call of the load side)",
+    "hand-written models lean/MorfuseModel/Archive/Dict.lean (StringDictionary Add/Get as first-occurrence interning; the hash "
+    "table behind it is C17's) and Archive/Tables.lean (Container_archive.h, set_archive.h, Listener::Archive), tied by the "
+    "same differential run: archives are read back in a NEW ScriptContext; Listener tables in a two-pass run (the order of "
+    "the writer's table walk is taken from the real table, the model must reproduce bytes and read-back from it)",
     "g++ 12 / libstdc++ stream semantics, little-endian 64-bit target (sizeof(size_t) = sizeof(streamsize) = 8, unsigned = 4)",
 ]
 ASSUME = [
@@ -28,6 +33,10 @@ ASSUME = [
     "fewer than 2^32 - 654322 registered objects (an index then never equals ARCHIVE_NULL_POINTER)",
     "classes have single inheritance from AbstractClass (the table compares void* values)",
     "floats are 32/64-bit patterns; the bytes of a string may be anything including NUL",
+    "constant strings are NUL-free texts; an object record read with the polymorphic ReadObject() names a class whose "
+    "Archive() the reading host scripts (the harness's VNode/VNodf) or Listener",
+    "Listener tables: notify / wait-for / end lists (con::set<const_str, ConList>); ScriptVariableList (vars) and the "
+    "Array / Pointer / Container kinds of ScriptVariable are not modelled",
 ]
 
 
@@ -234,7 +243,9 @@ def check(ctx):
     proofs_ok, _ = common.proof_side(ctx, PROPS_MODULE, PROPS_FILE)
     if ctx.stats.get("lake_build_ok"):
         archgen.cfg_obligations(ctx, d0["flags"], {
-            "valueStrFresh": "a loaded String value starts from an empty string (C10_value_roundtrip for empty strings)"},
+            "valueStrFresh": "a loaded String value starts from an empty string (C10_value_roundtrip for empty strings)",
+            "dictLoadAdds": "the load side of StringDictionary::ArchiveString interns the text read (Add), so that it denotes "
+                            "the archived text in any reading dictionary (C10_const_string_any_dictionary)"},
             "notes/C10-findings.md")
     if ctx.tier == "thorough":
         common.leanchecker(ctx, PROPS_MODULE)
